@@ -68,3 +68,56 @@ Section LifeInd.
     rewrite !flat_app, app_assoc. exact H3.
   Qed.
 End LifeInd.
+
+(* the same for the live phase of a plain run (good_step as the per-step guard) *)
+Section LiveIndG.
+  Variable E : env.
+  Variable P : dstate -> list effect -> Prop.
+  Hypothesis Pstep : forall d i effs, P d effs -> good_step E d i = true ->
+    P (fst (fst (dstep E false d i))) (effs ++ snd (fst (dstep E false d i))).
+
+  Lemma starts_PG : forall fuel d effs, P d effs -> starts_good E fuel d = true ->
+    P (fst (starts E fuel d)) (effs ++ flat (snd (starts E fuel d))).
+  Proof.
+    induction fuel as [|n IH]; intros d effs H G; cbn [starts starts_good] in *.
+    - cbn [fst snd flat flat_map]. rewrite app_nil_r. exact H.
+    - apply andb_prop in G. destruct G as [G1 G2].
+      pose proof (Pstep d (IStart 0) effs H G1) as H1.
+      destruct (dstep E false d (IStart 0)) as [[d1 eff] com]. cbn [fst snd] in *. destruct com.
+      + specialize (IH d1 _ H1 G2). destruct (starts E n d1) as [d2 tr]. cbn [fst snd] in *.
+        rewrite flat_cons, app_assoc. exact IH.
+      + cbn [fst snd]. rewrite flat_cons. cbn [flat flat_map]. rewrite app_nil_r. exact H1.
+  Qed.
+
+  Lemma listen_PG : forall ins d effs, P d effs -> listen_good E d ins = true ->
+    P (fst (listen E d ins)) (effs ++ flat (snd (listen E d ins))).
+  Proof.
+    induction ins as [|i rest IH]; intros d effs H G; cbn [listen listen_good] in *.
+    - cbn [fst snd flat flat_map]. rewrite app_nil_r. exact H.
+    - apply andb_prop in G. destruct G as [G1 G].
+      pose proof (Pstep d i effs H G1) as H1.
+      destruct (dstep E false d i) as [[d1 eff] com]. cbn [fst snd] in *.
+      apply andb_prop in G. destruct G as [G2 G3].
+      assert (S : P (fst (if com then starts E SFUEL d1 else (d1, [])))
+                    ((effs ++ eff) ++ flat (snd (if com then starts E SFUEL d1 else (d1, []))))).
+      { destruct com; [apply starts_PG; assumption|]. cbn [fst snd flat flat_map]. rewrite app_nil_r. exact H1. }
+      assert (D2 : listen_good E (fst (if com then starts E SFUEL d1 else (d1, []))) rest = true)
+        by (destruct com; exact G3).
+      destruct (if com then starts E SFUEL d1 else (d1, [])) as [d2 tr2]. cbn [fst snd] in *.
+      specialize (IH d2 _ S D2). destruct (listen E d2 rest) as [d3 tr3]. cbn [fst snd] in *.
+      rewrite flat_cons, flat_app, !app_assoc. exact IH.
+  Qed.
+
+  Lemma run_PG : forall h0 ins, good_run E h0 ins = true -> P (boot h0 [] 0) [] ->
+    P (fst (lifetime E h0 [] 0 ins)) (flat (snd (lifetime E h0 [] 0 ins))).
+  Proof.
+    intros h0 ins G H0. unfold good_run in G. apply andb_prop in G. destruct G as [G G3].
+    apply andb_prop in G. destruct G as [_ G2].
+    unfold lifetime, recover. cbn [load live_entries index_of fold_left sort_h snd replay].
+    unfold run_live. pose proof (starts_PG SFUEL _ [] H0 G2) as H2.
+    destruct (starts E SFUEL (boot h0 [] 0)) as [d2 tr2]. cbn [fst snd] in *.
+    pose proof (listen_PG ins d2 _ H2 G3) as H3.
+    destruct (listen E d2 ins) as [d3 tr3]. cbn [fst snd app] in *.
+    rewrite flat_app. exact H3.
+  Qed.
+End LiveIndG.
